@@ -191,8 +191,13 @@ func genC20(t *Tape, tier string) *Scenario {
 		if sc.YieldPark == 0 {
 			sc.YieldPark = Dur(1+t.Intn(6)) * 100 * time.Microsecond
 		}
-		sc.YieldPoints = []string{"server.close", "server.shutdown"}
-		for _, p := range []string{"conn.reset", "conn.bdat.open", "conn.bdat.last", "conn.loop", "conn.woken"} {
+		// (the two points inside Close and Shutdown park for the same time as the others: when
+		// they are off, a call can land inside a window that a parked connection holds open)
+		sc.YieldPoints = []string{}
+		if x.Yield || t.Bool() {
+			sc.YieldPoints = []string{"server.close", "server.shutdown"}
+		}
+		for _, p := range []string{"conn.reset", "conn.bdat.open", "conn.bdat.last", "conn.loop", "conn.woken", "serve.conn"} {
 			if t.Bool() {
 				sc.YieldPoints = append(sc.YieldPoints, p)
 				x.LoopYield = true
@@ -338,7 +343,10 @@ func checkC20(sc *Scenario, h *History) []Violation {
 			continue
 		}
 		for j, c := range h.Conns {
-			if c.Accepted && c.AcceptedAt < a.CallAt && (c.S2C.ClosedAt == 0 || c.S2C.ClosedAt > a.RetAt) {
+			// (a connection that Accept had handed out but whose goroutine had not got as far as
+			// registering it is ended as soon as that goroutine runs: later than the return of
+			// Close, but without a single octet having been written to it)
+			if c.Accepted && c.AcceptedAt < a.CallAt && (c.S2C.ClosedAt == 0 || c.S2C.ClosedAt > a.RetAt && len(c.S2C.Buf) > 0) {
 				v("C20.close-leaves-conn", "Close (call %d, returned %q at t=%d) left connection %d open (closed at t=%d)", i, a.Err, a.RetAt-h.Start, j, c.S2C.ClosedAt-h.Start)
 			}
 		}
@@ -367,7 +375,7 @@ func checkC20(sc *Scenario, h *History) []Violation {
 		switch a.Err {
 		case "":
 			for j, c := range h.Conns {
-				if c.Accepted && c.S2C.ClosedAt != 0 && c.S2C.ClosedAt > a.RetAt && len(c.C2S.Reads) > 0 && c.C2S.Reads[0].At < a.CallAt {
+				if c.Accepted && c.S2C.ClosedAt != 0 && c.S2C.ClosedAt > a.RetAt && (len(c.C2S.Reads) > 0 && c.C2S.Reads[0].At < a.CallAt || c.AcceptedAt < a.CallAt && len(c.S2C.Buf) > 0) {
 					v("C20.shutdown-early", "Shutdown (call %d) returned nil at t=%d while connection %d was still being served (it ended at t=%d)", i, a.RetAt-h.Start, j, c.S2C.ClosedAt-h.Start)
 				}
 			}
@@ -390,7 +398,26 @@ func classifyC20(sc *Scenario, h *History, st *Stats) string {
 			st.Probes["shutdown_context_expired"]++
 		}
 	}
+	if n := serveConnParks.Swap(0); n > 0 {
+		st.Probes["connection_goroutine_parked_before_registering"]++
+	}
 	for i := range sc.Conns {
+		if c := h.Conns[i]; c.Accepted {
+			for _, a := range h.Admin {
+				if a.CallAt != 0 && c.AcceptedAt < a.CallAt && (len(c.S2C.Writes) == 0 || c.S2C.Writes[0].At > a.CallAt) {
+					st.Probes["server_stopped_between_accept_and_greeting"]++
+					break
+				}
+			}
+		}
+		if c := h.Conns[i]; c.Accepted && len(c.S2C.Buf) == 0 && c.S2C.ClosedAt != 0 {
+			for _, a := range h.Admin {
+				if a.Returned && c.AcceptedAt < a.CallAt && c.S2C.ClosedAt > a.RetAt {
+					st.Probes["connection_accepted_but_not_yet_registered_when_the_server_stopped"]++
+					break
+				}
+			}
+		}
 		if h.Conns[i].HandshakeDone && sc.Srv.TLS == tlsStart {
 			st.Probes["starttls_upgrade_completed"]++
 		}
